@@ -14,12 +14,12 @@ pub fn tabs_everywhere(_args: &[String]) -> String {
     std::panic::set_hook(Box::new(|_| {}));
     let mut tried = 0u64;
     // operations: 0 set_message, 1 set_prefix, 2 set_tab_width(2), 3 set_tab_width(5), 4 set_style(fresh style with a literal tab),
-    // 5 set_style(own style with a new template), 6 finish_with_message, 7 with_tab_width is applied at construction
+    // 5 set_style(own style with a new template), 6 finish_with_message, 7 set_tab_width(0); with_tab_width is applied at construction
     let sp = |n: usize| " ".repeat(n);
     for w0 in [None, Some(3usize)] {
-        for a in 0..7 {
-            for b in 0..7 {
-                for c in 0..7 {
+        for a in 0..8 {
+            for b in 0..8 {
+                for c in 0..8 {
                     let term = InMemoryTerm::new(6, 80);
                     let mut pb = ProgressBar::with_draw_target(Some(10), ProgressDrawTarget::term_like(Box::new(term.clone())));
                     let mut tw = 8usize;
@@ -36,6 +36,7 @@ pub fn tabs_everywhere(_args: &[String]) -> String {
                             1 => { pb.set_prefix("p\t"); pfx = "p\t".into(); hist.push("set_prefix(p\\t)".into()); }
                             2 => { pb.set_tab_width(2); tw = 2; hist.push("set_tab_width(2)".into()); }
                             3 => { pb.set_tab_width(5); tw = 5; hist.push("set_tab_width(5)".into()); }
+                            7 => { pb.set_tab_width(0); tw = 0; hist.push("set_tab_width(0)".into()); }
                             4 => { pb.set_style(ProgressStyle::with_template("<\t>{prefix}|\t{msg}|").unwrap()); lit = "<\t>".into(); hist.push("set_style(fresh style, template <\\t>..)".into()); }
                             5 => { let st = pb.style().template("(\t){prefix}|\t{msg}|").unwrap(); pb.set_style(st); lit = "(\t)".into(); hist.push("set_style(pb.style().template((\\t)..))".into()); }
                             _ => { pb.finish_with_message("f\tf"); msg = "f\tf".into(); hist.push("finish_with_message(f\\tf)".into()); }
@@ -49,6 +50,29 @@ pub fn tabs_everywhere(_args: &[String]) -> String {
                         }
                     }
                 }
+            }
+        }
+    }
+    // width fields around tab-containing texts follow the CURRENT expansion: pad / truncate after every tab-width change
+    for widths in [[8usize, 2, 8], [2, 8, 3], [0, 4, 0], [5, 5, 1]] {
+        let term = InMemoryTerm::new(6, 80);
+        let pb = ProgressBar::with_draw_target(Some(10), ProgressDrawTarget::term_like(Box::new(term.clone())));
+        pb.set_style(ProgressStyle::with_template("[{msg:12}]|{prefix:>8!}|{wide_msg}").unwrap());
+        pb.set_message("a\tb");
+        pb.set_prefix("p\tq");
+        let mut hist = vec!["template [{msg:12}]|{prefix:>8!}|{wide_msg}; set_message(a\\tb); set_prefix(p\\tq)".to_string()];
+        for w in widths {
+            pb.set_tab_width(w);
+            pb.tick();
+            hist.push(format!("set_tab_width({}); tick", w));
+            tried += 1;
+            let m = format!("a{}b", sp(w));
+            let p = format!("p{}q", sp(w));
+            let pshown: String = if p.len() > 8 { p[p.len() - 8..].to_string() } else { format!("{:>8}", p) };
+            let want = format!("[{:<12}]|{}|{}", m, pshown, m);
+            let got = term.contents();
+            if got.contains('\t') || got.trim_end() != want.trim_end() {
+                return fail("C16/C12 fields are padded / truncated by the width of the text as expanded with the current tab width", &hist, &want, &got);
             }
         }
     }
